@@ -22,6 +22,16 @@ Theorem C01_mulM_mulMInv_id_any_dof (t : tree X) :
      length (d_f (dy (fst y))) = length (n_H (nd (fst y))) /\ pivots_ok (a_D (snd y))) ->
   Forall (fun r => snd r = d_f (dy (w_x (fst (fst r))))) (flatten (mulM_of_mulMInv KR AR nd dy t)).
 Proof. exact (mulM_mulMInv_id_pivots nd dy t). Qed.
+
+(** and the other side:  M u = f  implies  M^-1 f = u.  So multiplyByMInv is the two-sided inverse of multiplyByM on
+    every tree (hypotheses: one force / one speed per mobility, non-zero elimination pivots of every D block). *)
+Theorem C01_mulMInv_mulM_id_any_dof (u : X -> list R) (t : tree X) :
+  (forall y, In y (flatten (abi_pass KR AR nd t)) ->
+     length (d_f (dy (fst y))) = length (n_H (nd (fst y))) /\ length (u (fst y)) = length (n_H (nd (fst y))) /\ pivots_ok (a_D (snd y))) ->
+  Forall (fun r => snd r = d_f (dy (fst (fst r)))) (flatten (mulM KR nd u t)) ->
+  Forall (fun w => w_ud w = u (w_x w)) (flatten (mulMInv KR AR nd dy t)).
+Proof. exact (mulMInv_mulM_id_pivots nd dy u t). Qed.
 End P.
 Print Assumptions C01_mulM_mulMInv_id.
 Print Assumptions C01_mulM_mulMInv_id_any_dof.
+Print Assumptions C01_mulMInv_mulM_id_any_dof.
